@@ -37,11 +37,31 @@ def rare_inputs(rng, want, budget):
             ds = [int(c) for c in pan + e + s]
             ds += [0] * (32 - len(ds))
             r = e2.update(o.xor(e1.update(o.from_nibbles(ds[:16])), o.from_nibbles(ds[16:])))
-            if sum(1 for x in o.nibbles(r) if x < 10) < 3:
+            nb = o.nibbles(r)
+            dec = [x for x in nb if x < 10]
+            if len(dec) < 3:
                 found.append((cvk, pan, e, s))
                 if len(found) >= want:
                     break
+            else:
+                # other shapes of the final block that a rewritten decimalisation may treat specially
+                shape = None
+                if len(set(dec)) <= 2:
+                    shape = "three or more decimal nibbles, at most two distinct values"
+                elif len(dec) == 3:
+                    shape = "exactly three decimal nibbles"
+                elif len(dec) == 16:
+                    shape = "all sixteen nibbles decimal"
+                elif all(x >= 10 for x in nb[:3]):
+                    shape = "first three nibbles are letters"
+                elif all(x >= 10 for x in nb[-8:]):
+                    shape = "decimal nibbles only in the first half"
+                if shape and len(SHAPES.setdefault(shape, [])) < 6:
+                    SHAPES[shape].append((cvk, pan, e, s))
     return found
+
+
+SHAPES = {}
 
 
 def run(ctx):
@@ -62,6 +82,8 @@ def run(ctx):
     cases = fw.with_history(rng, cases, gens.variants_generic(rng), fraction=0.15, limit=80)
     rare = rare_inputs(rng, ctx.n(40, 400), ctx.n(1200000, 12000000))
     cases += [("generate_cvv", r) for r in rare]
+    for shape, items in SHAPES.items():
+        cases += [("generate_cvv", r) for r in items]
     # domain edges
     for cvkl in (0, 8, 15, 17, 24):
         cases.append(("generate_cvv", (rng.randbytes(cvkl), "1234567890123456", "2512", "101")))
@@ -78,5 +100,7 @@ def run(ctx):
              "oracle = independent CVV from single-block OpenSSL ECB; non-trivial = distinct successful calls")
     fw.inplace_history(res, rng, [c for c in cases if check_impl(c[0], c[1], core.impl_call(c[0], c[1])) is None][:200], check_impl)
     res["distribution"]["second_pass_inputs"] = len(rare) + 1
+    for shape, items in SHAPES.items():
+        res["distribution"]["final block: " + shape] = len(items)
     res["distribution"]["corpus_inputs_0_or_1_decimal_nibbles"] = len(corpus)
     return res
